@@ -16,7 +16,13 @@
    Send: it has allocated one id per call), distinct round trips those of distinct operations, and its response body is what the Bridge model
    computes for it with ANY inner client+server satisfying inner_ok (whatever the handlers answer, whatever id
    the shared client has reached, whatever the batch flag).  Then every reply record answers exactly the ids of
-   its own request record: [bridge_answers_own_requests]; and the composed theorem [same_results_bridge]. *)
+   its own request record: [bridge_answers_own_requests]; and the composed theorem [same_results_bridge].
+   [sends_answered_by_bridge] states the same coupling on the runs themselves: round trip j is the j-th successful
+   Send of the client's run ([sendlog], CliSendLog.v: an operation sends at most once, so the assignment is
+   injective by theorem, not by hypothesis).  [same_results]: the final theorem, which also drops the premise "the
+   client did not stop" (CliNoStop.v: a client that is never closed and only handed JSON records does not stop;
+   [bridge_status]: a Bridge answers 200 or 204 only).  What is NOT proved here: that operations return at all
+   (liveness), and the glue definitions above against Go. *)
 From Coq Require Import List NArith ZArith Bool Arith Lia Permutation DecimalFacts DecimalNat.
 From JV Require Bridge BridgeProofs.
 From JV Require Import HttpChan HttpChanProofs SameResults.
